@@ -842,3 +842,81 @@ pub fn op_tree_hist<B: Be>(mut doc: B, steps: &[&str]) -> Option<String> {
     o.law("law_wf", &law_wf_cell.borrow());
     Some(o.finish())
 }
+
+// ---------------------------------------------------------------------------------------------
+// deep N — one pointer of N tokens against documents that exist only along it (C05 C06 C08 C10): the walks of the crate use
+// constant stack, so depth must not matter. Everything the harness does here is iterative (no recursive printing, comparing
+// or dropping of the N-deep document), and `jpserve` runs on a thread with an ordinary 2 MiB stack.
+// ---------------------------------------------------------------------------------------------
+
+macro_rules! deep_impl {
+    ($name:ident, $V:ty, $leaf:expr, $start:expr, $arr:path, $obj:path) => {
+        pub fn $name(n: usize) -> String {
+            use jsonptr::{assign::Assign, delete::Delete, resolve::Resolve};
+            let mut o = Out::new();
+            let mut law = Law::new();
+            for tok in ["0", "a", "-"] {
+                let text = format!("/{tok}").repeat(n);
+                let p = match Pointer::parse(&text) {
+                    Ok(p) => p,
+                    Err(_) => return "bad_op=1".to_string(),
+                };
+                let mut doc: $V = $start;
+                let r = guard(|| doc.assign(p, $leaf));
+                if !matches!(r, Some(Ok(_))) {
+                    law.fail(&format!("assign_{tok}_{}", if r.is_none() { "panicked" } else { "failed" }));
+                    continue;
+                }
+                // iterative descent: every level is a one-element container of the kind the token asks for
+                let mut cur: &$V = &doc;
+                let mut ok = true;
+                for _ in 0..n {
+                    cur = match cur {
+                        $arr(v) if tok != "a" && v.len() == 1 => &v[0],
+                        $obj(m) if tok == "a" && m.len() == 1 => match m.get("a") {
+                            Some(c) => c,
+                            None => {
+                                ok = false;
+                                break;
+                            }
+                        },
+                        _ => {
+                            ok = false;
+                            break;
+                        }
+                    };
+                }
+                law.ck(ok && *cur == $leaf, &format!("assign_{tok}_document_is_not_the_expansion"));
+                if tok != "-" && ok {
+                    match guard(|| doc.resolve(p).map(|r| std::ptr::eq(r, cur))) {
+                        Some(Ok(true)) => {}
+                        Some(Ok(false)) => law.fail(&format!("resolve_{tok}_another_node")),
+                        Some(Err(_)) => law.fail(&format!("resolve_{tok}_failed")),
+                        None => law.fail(&format!("resolve_{tok}_panicked")),
+                    }
+                    match guard(|| doc.delete(p)) {
+                        Some(Some(v)) => law.ck(v == $leaf, &format!("delete_{tok}_returned_another_value")),
+                        Some(None) => law.fail(&format!("delete_{tok}_returned_none")),
+                        None => law.fail(&format!("delete_{tok}_panicked")),
+                    }
+                }
+                // iterative drop
+                loop {
+                    let child: Option<$V> = match &mut doc {
+                        $arr(v) => v.pop(),
+                        $obj(m) => m.remove("a"),
+                        _ => None,
+                    };
+                    match child {
+                        Some(c) => doc = c,
+                        None => break,
+                    }
+                }
+            }
+            o.law("law_deep", &law);
+            o.finish()
+        }
+    };
+}
+deep_impl!(op_deep_json, serde_json::Value, serde_json::Value::from(7), serde_json::Value::Null, serde_json::Value::Array, serde_json::Value::Object);
+deep_impl!(op_deep_toml, toml::Value, toml::Value::Integer(7), toml::Value::Integer(0), toml::Value::Array, toml::Value::Table);
